@@ -107,6 +107,22 @@ CLAIMS["C11"] = dict(
          "variables (documented behaviour, excluded from the oracle).",
 )
 
+CLAIMS["C13"] = dict(
+    technique="Lean 4 theorems on the receiver constraint over model M3 (identity filter, class selectors unfiltered, _dig) with kernel-evaluated runs + population correspondence + receiver-identity oracle",
+    text="Machine-checked proof over the runtime model M3 that, once the receiver parameter is captured, a handler of a "
+         "selector built by _resolve for a bound method runs iff the captured receiver IS the probed object (value "
+         "equality is irrelevant, the parameter name is irrelevant), that a selector through the class is unfiltered, "
+         "that _dig always reaches a function or a tooled wrapper; the full statement fails for a focus bound before "
+         "the receiver is captured (finding F24, kernel-evaluated witness, replayed on the implementation). Model and "
+         "implementation are compared on populations of plain / value-equal / unhashable / subclass instances with "
+         "colliding values, dotted paths, decorated methods and properties; events (value, id(receiver)) are compared "
+         "with `receiver is the probed object`.",
+    design_ref="DESIGN.md section 5, C13",
+    note="Known finding F24 (external focus variable fires for every receiver) is accepted exactly for selectors whose "
+         "focus is a global read by the method. Symbol resolution through attributes (dict_resolver) is exercised on "
+         "the implementation, not modelled.",
+)
+
 PENDING_REASON = ("not claimed yet in this build: the Lean model and correspondence check for this property are "
                   "still under construction (see DESIGN.md section 11); the technique applies and the property "
                   "will move to `checks` when its check exists")
